@@ -216,7 +216,10 @@ def _get_gradient_results(  # noqa: PLR0913
         active_objectives=active_objectives,
         active_constraints=active_constraints,
     )
-    variables = perturbed_variables.reshape(-1, perturbed_variables.shape[-1])
+    # The evaluator gets an array of its own, like for the other requests: what
+    # it does to its argument must not change the perturbed variables that are
+    # reported, and used to estimate the gradient:
+    variables = perturbed_variables.reshape(-1, perturbed_variables.shape[-1]).copy()
     if transforms is not None and transforms.variables:
         variables = transforms.variables.from_optimizer(variables)
     evaluator_result = evaluator(variables, context)
